@@ -73,17 +73,17 @@ def make_rg(spec: dict):
 def rand_rg_spec(rng: random.Random) -> dict:
     a = rng.choice(["rbt", "rbt", "linear", "ff", "qt", "qg", "pd", "clt"])
     if a == "rbt":
-        n = rng.randint(1, 9)
+        n = rng.choice([1, 2, 3, 4, 5, 5, 6, 6, 7, 8, 9])
         maxd = max(0, int(np.floor(np.log2(n)))) if n > 1 else 0
-        depth = rng.choice([None] + list(range(0, maxd + 1)))
-        return {"alg": a, "args": {"n": n, "depth": depth, "rep": rng.choice([1, 1, 2, 3]), "seed": rng.randrange(1000)}}
+        depth = rng.choice([None, None] + list(range(0, maxd + 1)))
+        return {"alg": a, "args": {"n": n, "depth": depth, "rep": rng.choice([1, 2, 2, 3]), "seed": rng.randrange(1000)}}
     if a == "linear":
         n = rng.randint(1, 7)
         ordering = None
         if rng.random() < 0.4:
             ordering = list(range(n)); rng.shuffle(ordering)
-        return {"alg": a, "args": {"n": n, "rep": rng.choice([1, 2, 3]), "ordering": ordering,
-                                   "randomize": ordering is None and rng.random() < 0.5, "seed": rng.randrange(1000)}}
+        return {"alg": a, "args": {"n": n, "rep": rng.choice([1, 2, 2, 3]), "ordering": ordering,
+                                   "randomize": ordering is None and rng.random() < 0.7, "seed": rng.randrange(1000)}}
     if a == "ff":
         return {"alg": a, "args": {"n": rng.randint(1, 7), "rep": rng.choice([1, 2, 3])}}
     shape = [rng.choice([1, 1, 2, 3]), rng.randint(1, 5), rng.randint(1, 5)]
